@@ -20,8 +20,11 @@ expressible (`Props/C01Ident.idna_total_old_is_false`).
 Unicode lower-casing is a PARAMETER: `lowerStr : List Char → List Char` stands for
 `str::to_lowercase` (it is not a per-character map: `Σ` becomes `σ` or `ς` depending on its
 neighbours, one character may become several).  `liftLower` turns a per-character table into such
-a function; `lowerConcrete` is an executable table (ASCII + Latin-1 + Greek/Cyrillic basics + the
-Kelvin sign, DESIGN §1 observation i) used by the driver.
+a function; `lowerConcrete` is a small hand-written table (ASCII + Latin-1 + Greek/Cyrillic basics +
+the Kelvin sign, DESIGN §1 observation i; NO final-sigma rule) kept for the examples of
+`Props/C01Ident.lean`.  The DRIVER evaluates `Model/Lower.lean: lowerFull` (Rust's
+`str::to_lowercase` over tables regenerated from the compiled std, `Gen/Lower.lean`) through
+`Lower.toIdnaFull`; `Props/C01Lower.lean` instantiates the theorems at that function.
 
 Arithmetic of the encoder is `u32`.  Exactly one overflow is checked by the crate
 (`lib.rs:158`: `m - n > (u32::MAX - delta) / (h + 1)` ⇒ `Err(())`); the two `delta += 1`
@@ -272,7 +275,8 @@ def lowerConcrete (c : Char) : List Char :=
   else if n = 0x212B then [Char.ofNat 0xE5]
   else [c]
 
-/-- Driver entry: `to_idna` with `lowerConcrete`, release arithmetic; `none` = any failure. -/
+/-- `to_idna` with `lowerConcrete`, release arithmetic; `none` = any failure.  (Not the driver entry
+any more: that is `Lower.toIdnaFull`, `Model/Lower.lean`.) -/
 def toIdna (domain : List Char) : Option (List Char) :=
   match toIdnaWith lowerConcrete .release domain with
   | .ok o => some o
